@@ -103,7 +103,7 @@ theorem toD_insert (m : Model.MmrE.AMap D) (k : Nat) (v : D) :
     DMap.insert (toD m) k v = toD (Model.MmrE.AMap.insert m k v) := by
   funext k'
   unfold DMap.insert toD
-  rw [MmrE.AMap.get?_insert]
+  rw [MmrBM.AMap.get?_insert]
   by_cases h : k' = k
   · subst h; simp
   · have : ¬ k = k' := fun e => h e.symm
@@ -173,7 +173,7 @@ end Sim
 
 section Batch
 variable {D : Type} (H : D → D → D)
-open TF.Model.MmrAcc TF.MmrE TF.Spec.MmrE
+open TF.Model.MmrAcc TF.MmrE TF.MmrBM TF.Spec.MmrE
 
 /-- apply `(index, value)` updates in order -/
 def applyUpdates (f : Nat → D) : List (Nat × D) → Nat → D
@@ -473,7 +473,7 @@ theorem batch_dup_panics [BEq D] (a : Acc D) (proofs : List (List D)) (idxs : Li
         rw [List.map_reverse]
         intro hnd
         apply h
-        have := MmrE.nodup_rev _ hnd
+        have := MmrBM.nodup_rev _ hnd
         rwa [List.reverse_reverse] at this)]
       rfl
 
